@@ -62,7 +62,7 @@ def fmd(x):
 
 def data(x):
     if isinstance(x, list):       # ["zeros", n]
-        return "(zeros %s)" % N(x[1])
+        return "(c47_zeros %s)" % N(x[1])
     return hx(x)
 
 def height(h):
@@ -108,7 +108,7 @@ def enc_ftpd(r):
 
 def enc_msgtransfer(r):
     i = r["in"]
-    return "MsgTr (mkMsgTransfer %s %s %s %s %s %s (zeros %s) %s) %s" % (
+    return "MsgTr (mkMsgTransfer %s %s %s %s %s %s (c47_zeros %s) %s) %s" % (
         hx(i[0]), hx(i[1]), hx(i[2]), zopt(i[3]), hx(i[4]), hx(i[5]), N(i[6]), b(i[7]), cl(r["out"][0]))
 
 def enc_forward(r):
